@@ -14,11 +14,14 @@ package locking
 //@   requires [protocol_content] has(fsIsFile, lockPath) ==> lockCreator > 0 && (select(fsData, lockPath) == "" || select(fsData, lockPath) == itoa(lockCreator))
 //@   ensures [still_alive] has(alive, me) && me > 0
 //@   ensures [protocol_content_kept] has(fsIsFile, lockPath) ==> lockCreator > 0 && (select(fsData, lockPath) == "" || select(fsData, lockPath) == itoa(lockCreator))
+//@   ghostset probedSinceCreateAttempt := true
+//@   ghostset lastProbeAlive := r
+//@   ghostset lastProbedPid := pid
 
 // Guarantee side of the protocol: a step of this process removes the lock file only if it is its own or its creator is
 // dead, and leaves the content empty or equal to the creator's PID. Lock returning nil means this process holds the lock.
 //@ func (*WorkspaceLocker).Lock(wl, ctx) (err)
-//@   modifies fsIsFile, fsData, lockCreator, lockInst, alive, hInst, hwritable, hpath, ctxDone
+//@   modifies fsIsFile, fsData, lockCreator, lockInst, alive, hInst, hwritable, hpath, ctxDone, probedSinceCreateAttempt, lastProbeAlive, lastProbedPid
 //@   requires [model] wl.lockFilePath == lockPath && has(fsIsDir, dirOf(lockPath)) && has(alive, me) && me > 0
 //@   requires [protocol_content] has(fsIsFile, lockPath) ==> lockCreator > 0 && (select(fsData, lockPath) == "" || select(fsData, lockPath) == itoa(lockCreator))
 //@   ensures [holds_lock] err == nil ==> has(fsIsFile, lockPath) && lockCreator == me && select(fsData, lockPath) == itoa(me) && has(alive, me)
@@ -26,6 +29,7 @@ package locking
 //@   before_call Remove#2 [removes_only_dead_owner_unreadable] !has(fsIsFile, lockPath) || !has(alive, lockCreator)
 //@   before_call Remove#3 [removes_only_dead_owner_unparsable] !has(fsIsFile, lockPath) || !has(alive, lockCreator)
 //@   before_call Remove#4 [removes_only_dead_owner_stale_pid] !has(fsIsFile, lockPath) || !has(alive, lockCreator)
+//@   before_call After#1 [waits_only_after_finding_the_recorded_holder_alive] probedSinceCreateAttempt && lastProbeAlive && lastProbedPid == otherPid
 //@   before_call Close#1 [content_is_pid_or_empty] has(fsIsFile, lockPath) ==> select(fsData, lockPath) == "" || select(fsData, lockPath) == itoa(lockCreator)
 //@ loop #1
 //@   invariant [model] wl.lockFilePath == lockPath && has(fsIsDir, dirOf(lockPath)) && has(alive, me) && me > 0
